@@ -260,6 +260,18 @@ func VerifC05Tcc() {
 		vrt.Assert(bac != nil && bac.BranchId == w.branchID && bac.Xid == xid && bac.ActionName == "actionA", "c05/try-sees-the-registered-branch")
 	}
 
+	// the same action is prepared once more in the same global transaction (a second
+	// account, say): it is a branch of its own
+	if vrt.Bool("same.action.prepared.again") {
+		nreg, nlog2 := len(w.regs), len(w.log)
+		_, _ = pa.Prepare(ctx, params)
+		evs2 := w.log[nlog2:]
+		vrt.Reach("c05/prepared-again")
+		vrt.Assert(len(w.regs) == nreg+1, "c05/second-prepare-registers-its-own-branch")
+		vrt.Assert(len(evs2) >= 1 && evs2[0] == "register-branch:actionA", "c05/second-prepare-registration-precedes-try")
+		return
+	}
+
 	// ---- phase two ----
 	tagged := shape == 0 || shape == 1 || shape == 3
 	for k := 0; k < vrt.Param("deliveries", 2); k++ {
